@@ -70,7 +70,7 @@ def one(spec):
             meta["note"] = "rejected: tests %s, verif build rc=%d %s" % (sorted(fails ^ BASE["fails"]), rcb, ob[-300:])
             res = "REJECTED (" + meta["note"][:150] + ")"
         else:
-            rc, o = sh("./check %s --tier quick" % pid, env=dict(ENV, VERIF_REPO=copy))
+            rc, o = sh("./check %s --tier quick" % pid, env=dict(ENV, VERIF_REPO=copy, VERIF_OUT=copy + "-out"))
             lines = [l for l in o.split("\n") if l.startswith(("VIOLATION", "OK ", "KNOWN-FINDING"))]
             meta.update({"check_exit": rc, "check_output": lines, "false_alarm_candidate": rc != 0})
             res = ("ALARM " + " | ".join(lines)[:300]) if rc != 0 else "quiet"
@@ -83,6 +83,7 @@ def one(spec):
                         pass
     finally:
         shutil.rmtree(copy, ignore_errors=True)
+        shutil.rmtree(copy + "-out", ignore_errors=True)
     d = os.path.join(ROOT, "benign", name)
     os.makedirs(d, exist_ok=True)
     shutil.copy(diff, os.path.join(d, "patch.diff"))
